@@ -100,8 +100,26 @@ func (c01Engine) Gen(seed uint64, idx int, tier string) interface{} {
 	}
 	sc.Reuse = r.Chance(1, 4)
 	sc.Layout = Layout{Mode: r.Intn(3), Salt: r.Next()}
-	g := NewGen(r.Fork(), c01GenCfg(r, sc.Rep, sc.Env))
+	cfg0 := c01GenCfg(r, sc.Rep, sc.Env)
+	g := NewGen(r.Fork(), cfg0)
 	sc.Tree = genRoot(g, r)
+	if r.Chance(1, 25) && cfg0.Objects {
+		// a result directive on a member access of static type int64 / float64 whose
+		// value is nil when a link is missing
+		sc.API = "run"
+		recv := nID(r.Pick([]string{"O", "On"}))
+		var chain *N
+		switch r.Intn(3) {
+		case 0:
+			chain = nProp(recv, r.Pick([]string{"L", "F"}), true)
+		case 1:
+			chain = nProp(nProp(recv, "Next", true), r.Pick([]string{"L", "F"}), true)
+		default:
+			chain = nProp(nID("O"), r.Pick([]string{"L", "F", "V"}), false)
+		}
+		sc.Tree = chain
+		sc.Expect = r.Pick([]string{"int64", "float64"})
+	}
 	sc.Source = Print(sc.Tree, sc.Layout).Src
 
 	// The fault plan is drawn over the call indices of the reference journal.
@@ -308,6 +326,7 @@ func (c01Engine) Shrinks(sci interface{}) []interface{} {
 	add(func(c *EnvScenario) { c.Stateful = false })
 	add(func(c *EnvScenario) { c.API = "run" })
 	add(func(c *EnvScenario) { c.Optimize = true })
+	add(func(c *EnvScenario) { c.Expect = "" })
 	for _, e := range envShrinks(sc.Env) {
 		e := e
 		add(func(c *EnvScenario) { c.Env = e })
